@@ -13,7 +13,7 @@ import vlib
 PROPERTIES = ["C06", "C07", "C16"]
 
 # deviations of spec/Staking.tla that describe the CURRENT tree (strict lane / generation)
-DEVS = ["L3", "LEAK", "ACT", "L17", "WINDOW"]
+DEVS = ["L3", "LEAK", "ACT", "L17", "WINDOW", "PCHOOK"]
 
 WORLDS = {
     # three operators, two genesis validators (o1: key k4 power 2, o2: key k2 power 1), five keys
@@ -108,6 +108,8 @@ def explain(tag, who, ctx, line):
             dev = "L3"
         elif tag == "C16_NotReleasedOnTime" and x.startswith("O:") and x[2:] in ctx["stuck"]:
             dev = "L3"
+        elif tag == "C16_HoldDecision" and line.get("ok") and (line.get("a") or {}).get("path") == "pc":
+            dev = "PCHOOK"                            # path = precompile: the keeper copy without hooks
         elif tag == "C16_HoldDecision" and line.get("panic"):
             if ctx["window"]:
                 dev = "WINDOW"
